@@ -21,7 +21,7 @@ func optionWitnesses(bf *builderFlow, opt string) map[string]bool {
 		}
 		all := true
 		for _, ev := range wf.stores {
-			if !(ev.ctl["opt:"+opt+"+"] && !ev.ctl["opt:"+opt+"-"]) {
+			if !ev.onlyIfOpt(opt) {
 				all = false
 			}
 		}
@@ -418,6 +418,10 @@ func checkStop(p *Program, r *Report, sf *ssa.Function) {
 	}
 	// exhaustion is signalled by a nil key; the empty key "" is a legitimate entry (a non-nil,
 	// zero-length slice), so the loop must test the key against nil, not its length
+	// the key values: result #0 of every iterator call, and the phis merging them (a three-clause
+	// loop calls the iterator in its init and post statements)
+	keyVals := map[ssa.Value]bool{}
+	var firstCall *ssa.Call
 	for _, c := range callsIn(sf) {
 		call, ok := c.(*ssa.Call)
 		if !ok || call.Common().StaticCallee() != nil || call.Common().Value == ssa.Value(fnParam) {
@@ -431,12 +435,29 @@ func checkStop(p *Program, r *Report, sf *ssa.Function) {
 			continue
 		}
 		for _, ref := range *call.Referrers() {
-			ex, ok := ref.(*ssa.Extract)
-			if !ok || ex.Index != 0 {
-				continue
+			if ex, ok := ref.(*ssa.Extract); ok && ex.Index == 0 {
+				keyVals[ex] = true
+				if firstCall == nil {
+					firstCall = call
+				}
 			}
-			nilTested, lenTested := false, ""
-			for _, r2 := range *ex.Referrers() {
+		}
+	}
+	for changed := true; changed; {
+		changed = false
+		for v := range keyVals {
+			for _, ref := range *v.Referrers() {
+				if ph, ok := ref.(*ssa.Phi); ok && !keyVals[ph] {
+					keyVals[ph] = true
+					changed = true
+				}
+			}
+		}
+	}
+	if firstCall != nil {
+		nilTested, lenTested := false, ""
+		for v := range keyVals {
+			for _, r2 := range *v.Referrers() {
 				switch x := r2.(type) {
 				case *ssa.BinOp:
 					if _, _, ok := nilTest(x); ok {
@@ -456,9 +477,9 @@ func checkStop(p *Program, r *Report, sf *ssa.Function) {
 					}
 				}
 			}
-			r.Check(nilTested && lenTested == "", "(*trie.SlimTrie).ScanFrom ends on a nil key only", p.Pos(call.Pos()), "the key is compared with nil; its length controls no branch",
-				"the scan loop branches on the length of the key ("+lenTested+") or never tests it against nil: the retained key \"\" (a non-nil empty slice) is taken for exhaustion")
 		}
+		r.Check(nilTested && lenTested == "", "(*trie.SlimTrie).ScanFrom ends on a nil key only", p.Pos(firstCall.Pos()), "the key is compared with nil; its length controls no branch",
+			"the scan loop branches on the length of the key ("+lenTested+") or never tests it against nil: the retained key \"\" (a non-nil empty slice) is taken for exhaustion")
 	}
 }
 
